@@ -180,6 +180,10 @@ var c06ExtraSources = []string{
 	"a > 2", "2 != a", "a < b", "a = 'x'", "concat(a, '')", "a = b", "string-length(a)", "a >= 1 and a = 'x'",
 }
 
+// c06FreshSources: calls whose operands need a conversion at run time (compiled anew in every round)
+var c06FreshSources = []string{"not(../name)", "string-length(a) > 2", "contains(a, b)", "concat(a, 1, b)", "number(a) + count(b)", "starts-with(../x, 'v')",
+	"substring(a, 2) = b", "not(a) or boolean(b)", "translate(a, 'v', 'w')", "sum(a) + 1 > string-length(b)"}
+
 func c06Compile(s string) string {
 	var m *xpath.Machine
 	var err error
@@ -291,12 +295,24 @@ func (p *c06) Run(tier string, seed int64, idx int) core.CaseResult {
 	got := make([][]string, G)
 	start := make(chan struct{})
 	var wg sync.WaitGroup
+	// a machine compiled just now: its very first evaluations happen on all goroutines at once
+	freshSrc := c06FreshSources[idx%len(c06FreshSources)]
+	fresh, freshErr := expr.NewExprMachine(freshSrc, c02PfxMap)
+	freshGot := make([]string, G)
+	runFresh := func() string {
+		out := xpmock.Run(fresh, &xpmock.Tree{Default: c06Tables[idx%len(c06Tables)]})
+		v, _ := out.ScalarVal()
+		return fmt.Sprintf("err=%q panic=%q kind=%s val=%s str=%q", out.Err, out.Panic, out.Kind, v, out.Str)
+	}
 	for g := 0; g < G; g++ {
 		wg.Add(1)
 		go func(g int) {
 			defer wg.Done()
 			out := make([]string, 0, K)
 			<-start
+			if freshErr == nil {
+				freshGot[g] = runFresh()
+			}
 			for _, o := range plan[g] {
 				out = append(out, c06Exec(o, true))
 			}
@@ -317,6 +333,17 @@ func (p *c06) Run(tier string, seed int64, idx int) core.CaseResult {
 	close(start)
 	wg.Wait()
 	xpath.VerifSetYield(0)
+	if freshErr == nil {
+		want := runFresh()
+		res.Ev("first_evaluations_of_a_fresh_machine_on_all_goroutines", 1)
+		for g := 0; g < G; g++ {
+			if freshGot[g] != want {
+				res.Fail("C06/concurrent-result-differs-from-isolated/first-runs-of-a-fresh-machine",
+					jsonStr(map[string]interface{}{"round": idx, "goroutine": g, "expr": freshSrc}), "isolated (afterwards): "+want+"\nconcurrent first run: "+freshGot[g])
+				break
+			}
+		}
+	}
 	if idx%2 == 1 {
 		sequential()
 	}
